@@ -67,7 +67,8 @@ structure Ref where
                 `bytearray` (class `bytearray`, its content under the attribute `data`), an instance of a
                 user class with attributes.  `copy.deepcopy` copies it, FORMATTING RETURNS IT AS IT IS
                 (`_get_formatted_iterable`: "any other type of object: returns it as is"); `setattr` /
-                `bytearray.extend` write to it (`Op.attrSetAt`).  Paths do not lead through attributes. -/
+                `bytearray.extend` write to it (`Op.attrSetAt`); paths lead through attributes by `Seg.attr`.
+                A yaml TAG object (`!jsonify` …) is an `obj` too, with its payload under `value` - see `isTagClass`. -/
 inductive CellOf (ρ : Type) where
   | leaf (v : Val)
   | list (rs : List ρ)
@@ -97,8 +98,21 @@ def CellOf.mapRefs {ρ σ : Type} (f : ρ → σ) : CellOf ρ → CellOf σ
   | .dict kvs => .dict (kvs.map fun kv => (kv.1, f kv.2))
   | .obj cls attrs => .obj cls (attrs.map fun kv => (kv.1, f kv.2))
 
+/-- The classes of pypyr's yaml TAG objects (`pypyr.dsl.SpecialTagDirective`: `!jsonify` / `!py` / `!sic`).  A tag
+    object is an `obj` cell with ONE attribute `value`: for `!py` / `!sic` an atom (the expression / the string),
+    for `!jsonify` whatever the tag was put on — a scalar, or a MAPPING / SEQUENCE of the definition (a ruamel
+    CommentedMap / CommentedSeq, nested, other tags inside).  It is a mutable object like any other
+    (`copy.deepcopy` copies it AND its payload: `copyArena`; `tag.value[...] = …` / `.append` reach the payload
+    through the attribute: `Seg.attr`).  FORMATTING does not hand a tag back: it calls `tag.get_value(context)` and
+    puts the RESULT (a new `str` for `!jsonify` / `!sic`) in its place — a fresh value; the model keeps the shape
+    (a rebuilt copy in the run's arena) because only identity matters here: nothing of the source is shared. -/
+def isTagClass (cls : String) : Bool :=
+  cls == "Jsonify" || cls == "PyString" || cls == "SicString"
+
+/-- OPAQUE to formatting: an `obj` that `_get_formatted_iterable` returns as it is (a `bytearray`, an instance of
+    a user class).  Tag objects are not: see `isTagClass`. -/
 def CellOf.isObj {ρ : Type} : CellOf ρ → Bool
-  | .obj _ _ => true
+  | .obj cls _ => !isTagClass cls
   | _ => false
 
 def CellOf.isLeaf {ρ : Type} : CellOf ρ → Bool
@@ -227,6 +241,8 @@ def fmtArena (h : Heap) (keep : List Nat) (src dst : Region) (base : Nat) : List
 inductive Seg where
   | key (k : String)
   | idx (i : Nat)
+  /-- `obj.k` — through an attribute of an object (`context['body'].value`: the payload of a tag object). -/
+  | attr (k : String)
   deriving DecidableEq, Repr, Inhabited
 
 abbrev Path := List Seg
@@ -236,9 +252,10 @@ def Cell.follow (c : Cell) (s : Seg) : Option Ref :=
   | .dict kvs, .key k => kvGet? kvs k
   | .list rs, .idx i => rs[i]?
   | .tuple rs, .idx i => rs[i]?
+  | .obj _ attrs, .attr k => kvGet? attrs k
   | _, _ => none
 
-/-- `context['a']['b'][0]…`: follow a path of dict keys / list indices from the object `a`. -/
+/-- `context['a']['b'][0].value['c']…`: follow a path of dict keys / list indices / attributes from the object `a`. -/
 def resolve (h : Heap) (a : Ref) : Path → Option Ref
   | [] => some a
   | s :: rest =>
